@@ -72,8 +72,7 @@ Definition Sim (sst : sstate) (dst : sdec_state) : Prop :=
   forall c, sim1 (lookup c (s_prev sst)) (lookup c (sd_cs dst)).
 
 Definition msg_wf (m : msg) : Prop :=
-  m_ts m < 4294967296 /\ m_tid m < 256 /\ m_sid m < 4294967296 /\ lenN (m_data m) <= 16777215 /\
-  forallb (fun b => b <? 256) (m_data m) = true.
+  m_ts m < 4294967296 /\ m_tid m < 256 /\ m_sid m < 4294967296 /\ lenN (m_data m) <= 16777215.
 
 (* the decoder is reassembling m on its chunk stream, [done] received so far *)
 Definition Mid (sst : sstate) (dst : sdec_state) (m : msg) (drop : bool) (done : bytes) : Prop :=
@@ -116,10 +115,10 @@ Lemma sub_values_lt a b : sub_values a b < 4294967296.
 Proof. unfold sub_values, two32. lia. Qed.
 
 Lemma chunk_of_wf f csid h data :
-  2 <= csid <= 63 -> hdr_wf h -> forallb (fun b => b <? 256) data = true -> chunk_wf (chunk_of f csid h data) = true.
+  2 <= csid <= 63 -> hdr_wf h -> chunk_wf (chunk_of f csid h data) = true.
 Proof.
-  intros Hc [H1 [H2 [H3 [H4 H5]]]] Hd. unfold chunk_wf, chunk_of, form_ok.
-  cbn [c_fmt c_csid c_form c_field c_len c_tid c_sid c_payload]. rewrite Hd.
+  intros Hc [H1 [H2 [H3 [H4 H5]]]]. unfold chunk_wf, chunk_of, form_ok.
+  cbn [c_fmt c_csid c_form c_field c_len c_tid c_sid c_payload].
   destruct f; cbn [fmt_num];
     [change (2 <=? 0) with false; change (1 <=? 0) with false
     |change (2 <=? 1) with false; change (1 <=? 1) with true
@@ -138,7 +137,7 @@ Lemma first_chunk sst dst m force drop slice rest_data :
     ((rest_data = [] /\ om = Some m /\ Sim sst1 dst1) \/
      (rest_data <> [] /\ om = None /\ Mid sst1 dst1 m drop slice)).
 Proof.
-  intros [Hmax [Hrange Hsim]] [Hts [Htid [Hsid [Hlen Hbytes]]]] Hdata Hslice csid f h Hdec sst1.
+  intros [Hmax [Hrange Hsim]] [Hts [Htid [Hsid Hlen]]] Hdata Hslice csid f h Hdec sst1.
   pose proof (csid_range (m_tid m)) as Hc. fold csid in Hc.
   destruct (Hsim csid) as [Hnomsg Hprev].
   (* the header the serializer writes, and the decoder's view of it *)
@@ -203,8 +202,7 @@ Proof.
         split; [exact Hw|]. repeat (split; [reflexivity|]). exact Hs. }
   destruct Hh as [Hhw [Ht [Hl [Hti [Hsi [Hdr [s [Hha [Hag Hpart]]]]]]]]].
   destruct Hag as [A1 [A2 [A3 [A4 A5]]]].
-  assert (Hsl : forallb (fun b => b <? 256) slice = true) by (rewrite Hdata in Hbytes; apply forallb_app_l in Hbytes; exact Hbytes).
-  pose proof (chunk_of_wf f csid h slice Hc Hhw Hsl) as Hcw.
+  pose proof (chunk_of_wf f csid h slice Hc Hhw) as Hcw.
   assert (Hexp : lenN (c_payload (chunk_of f csid h slice)) = expected_payload (sd_max dst) s).
   { unfold expected_payload, chunk_of. cbn [c_payload]. rewrite Hpart, A3, Hl, Hmax. change (lenN (@nil N)) with 0. rewrite Hslice. lia. }
   rewrite (dec_chunk_intro dst (chunk_of f csid h slice) s Hcw Hha) by (try exact Hexp; rewrite Hpart; change (lenN (@nil N)) with 0; lia).
@@ -248,7 +246,7 @@ Lemma cont_chunk sst dst m force drop done slice rest_data :
     ((rest_data = [] /\ om = Some m /\ Sim sst1 dst1) \/
      (rest_data <> [] /\ om = None /\ Mid sst1 dst1 m drop (done ++ slice))).
 Proof.
-  intros HMid [Hts [Htid [Hsid [Hlen Hbytes]]]] Hdata Hslice Hne csid f h Hdec sst1.
+  intros HMid [Hts [Htid [Hsid Hlen]]] Hdata Hslice Hne csid f h Hdec sst1.
   unfold Mid in HMid. fold csid in HMid.
   destruct HMid as [Hmax [Hrange [Hother [p [s [Hp [Hs [Hag [Hpw [Hpart [Hdone [P1 [P2 [P3 [P4 P5]]]]]]]]]]]]]]].
   destruct Hag as [A1 [A2 [A3 [A4 A5]]]]. destruct Hpw as [W1 [W2 [W3 [W4 W5]]]].
@@ -274,9 +272,7 @@ Proof.
       unfold agree; cbn. repeat split; lia. }
   destruct Hh as [Hhw [Ht [Hl [Hti [Hsi [Hdr [s' [Hha [Hag' Hpart']]]]]]]]].
   destruct Hag' as [B1 [B2 [B3 [B4 B5]]]].
-  assert (Hsl : forallb (fun b => b <? 256) slice = true).
-  { rewrite Hdata in Hbytes. apply forallb_app_r in Hbytes. apply forallb_app_l in Hbytes. exact Hbytes. }
-  pose proof (chunk_of_wf f csid h slice Hc Hhw Hsl) as Hcw.
+  pose proof (chunk_of_wf f csid h slice Hc Hhw) as Hcw.
   assert (Hlen2 : lenN (m_data m) = lenN done + lenN slice + lenN rest_data) by (rewrite Hdata, !lenN_app; lia).
   assert (Hexp : lenN (c_payload (chunk_of f csid h slice)) = expected_payload (sd_max dst) s').
   { unfold expected_payload, chunk_of. cbn [c_payload]. rewrite Hpart', B3, Hl, Hmax. exact Hslice. }
@@ -421,7 +417,7 @@ Lemma serialize_sim sst dst m force drop b sst' :
                   frame sst sst' (get_csid_for_message_type (m_tid m)) drop.
 Proof.
   intros HSim Hwf Hser. unfold serialize in Hser.
-  assert (Hwf' := Hwf). destruct Hwf' as [_ [_ [_ [Hlen _]]]].
+  assert (Hwf' := Hwf). destruct Hwf' as [_ [_ [_ Hlen]]].
   replace (16777215 <? lenN (m_data m)) with false in Hser by lia.
   destruct (m_data m) as [|d0 dr] eqn:Edata.
   - (* no payload: one header-only chunk *)
@@ -576,7 +572,7 @@ Proof.
     inversion Hstep; subst b sst'. clear Hstep.
     assert (Hmw : msg_wf m).
     { unfold msg_wf, m, TID_SetChunkSize. cbn [m_ts m_tid m_sid m_data]. change (lenN (be32 n)) with 4.
-      split; [exact Hwf|]. split; [lia|]. split; [lia|]. split; [lia|apply be32_bytes]. }
+      split; [exact Hwf|]. split; [lia|]. split; [lia|lia]. }
     destruct (serialize_sim sst dst m true false b' sst1 HSim Hmw Eser) as [cs [dst1 [Hb [Hdo [HS Hfr]]]]].
     exists cs, dst1, {| sd_max := n; sd_cs := sd_cs dst1 |}. split; [exact Hb|]. split; [exact Hdo|]. split.
     + unfold apply_control, m, TID_SetChunkSize. cbn [m_tid m_data]. change (1 =? 1) with true. cbv iota.
